@@ -187,7 +187,30 @@ func plantFormat(g *sgen, s map[string]interface{}, budget int) interface{} {
 	delete(s, "minItems")
 	delete(s, "maxItems")
 	str := func() interface{} { return g.pick([]string{"a", "bb", "ccc", "dddd"}) }
-	switch g.rng.Intn(4) {
+	switch g.rng.Intn(9) {
+	case 4:
+		// the checker runs below a `not` (its child validator is borrowed and released around the call)
+		s["not"] = map[string]interface{}{"items": leaf(), "minItems": 9}
+		return []interface{}{str(), str(), str()}
+	case 5:
+		s["oneOf"] = []interface{}{map[string]interface{}{"type": "integer"}, map[string]interface{}{"items": leaf()},
+			map[string]interface{}{"not": map[string]interface{}{"additionalProperties": leaf(), "required": []interface{}{"zz"}}}}
+		if g.p(50) {
+			return map[string]interface{}{"k": str(), "k2": str()}
+		}
+		return []interface{}{str(), str(), str()}
+	case 6:
+		s["dependencies"] = map[string]interface{}{"a": map[string]interface{}{"properties": map[string]interface{}{"b": leaf(), "c": leaf()}}}
+		s["patternProperties"] = map[string]interface{}{"^x": leaf()}
+		return map[string]interface{}{"a": 1, "b": str(), "c": str(), "x1": str()}
+	case 7:
+		s["items"] = []interface{}{leaf()}
+		s["additionalItems"] = map[string]interface{}{"not": map[string]interface{}{"type": "string", "format": "panicky", "minLength": 9}}
+		return []interface{}{str(), str(), str()}
+	case 8:
+		s["allOf"] = []interface{}{map[string]interface{}{"not": map[string]interface{}{"properties": map[string]interface{}{"k": leaf()}, "required": []interface{}{"zz"}}},
+			map[string]interface{}{"anyOf": []interface{}{map[string]interface{}{"additionalProperties": leaf()}, map[string]interface{}{"type": "array"}}}}
+		return map[string]interface{}{"k": str(), "k2": str()}
 	case 0:
 		s["properties"] = map[string]interface{}{"a": leaf(), "b": map[string]interface{}{"items": leaf()}}
 		return map[string]interface{}{"a": str(), "b": []interface{}{str(), str(), str()}}
